@@ -225,6 +225,41 @@ def applyBinary (a : Prim α) (op : BinOp) (b : Prim α) : Res α :=
   | .other .undefined => .error .undefinedUse
   | .other _ => .error .unsupportedBin
 
+/-! #### proposed repair `fixes/C18-exact-mixed-integer-arithmetic.diff`: mixed `Integer` / `PositiveInteger`
+arithmetic computed exactly (in `i128`) and narrowed with a range check, instead of `as i64` -/
+
+def applyBinIntegerX (i : Int) (op : BinOp) (to : Prim α) : Res α :=
+  match to with
+  | .pint n =>
+    match op with
+    | .add => ofI64 (checkedI64 (i + (n : Int)))
+    | .sub => ofI64 (checkedI64 (i - (n : Int)))
+    | .mul => ofI64 (checkedI64 (i * (n : Int)))
+    | op => applyBinInteger i op (.pint n)
+  | to => applyBinInteger i op to
+
+def applyBinPintX (u : Nat) (op : BinOp) (to : Prim α) : Res α :=
+  match to, op with
+  | .pint n, .sub => ofI64 (checkedI64 ((u : Int) - (n : Int)))
+  | .integer n, .add => ofI64 (checkedI64 ((u : Int) + n))
+  | .integer n, .sub => ofI64 (checkedI64 ((u : Int) - n))
+  | .integer n, .mul => ofI64 (checkedI64 ((u : Int) * n))
+  | .boolean b, .sub => ofI64 (checkedI64 ((u : Int) - boolI b))
+  | to, op => applyBinPint u op to
+
+def applyBinaryX (a : Prim α) (op : BinOp) (b : Prim α) : Res α :=
+  match a with
+  | .integer i => applyBinIntegerX i op b
+  | .pint u => applyBinPintX u op b
+  | a => applyBinary a op b
+
+/-- the mathematical integer a primitive stands for in integer arithmetic -/
+def Prim.intVal : Prim α → Option Int
+  | .integer i => some i
+  | .pint n => some (n : Int)
+  | .boolean b => some (boolI b)
+  | _ => none
+
 /-- `impl ApplyOp for Primitive :: apply_unary_op` (as of /repo 964974c: `checked_neg` for `i64`,
 `0i64.checked_sub_unsigned(u)` for `u64` — the negation that does not fit `i64` is the `Overflow` error). -/
 def applyUnary (op : UnOp) (a : Prim α) : Res α :=
